@@ -26,7 +26,9 @@
 
   `Cfg.fixT` / `Cfg.fixG` select the pinned code (`false`) or the code repaired by
   repo_patches/fix-template-loss.diff / fix-stale-include-graph.diff (`true`);
-  `Cfg.limit` is `Limits.MaxIncludeDepth` (50 by default).
+  `Cfg.limit` is `Limits.MaxIncludeDepth` (50 by default).  `GetCommodityFormats` is modelled as
+  repaired by repo_patches/fix-formats-path-order.diff (`computeFormats`; the pinned getter is
+  `pinnedComputeFormats`).
 -/
 import HL.Model.Index
 namespace HL.Workspace
@@ -261,7 +263,21 @@ def allAcctDirs (w : WS) : List String :=
 
 def addKey (s : List String) (k : String) : List String := if k ∈ s then s else s ++ [k]
 
+/-- `directivesInPathOrderLocked` restricted to commodity directives: the root journal's, then
+    those of the included files in path order (the keys of the Go map `resolved.Files`, sorted;
+    `dedup` because a Go map has every key once whatever the association list looks like). -/
+def pathCommDirs (w : WS) : List CommDir :=
+  (match w.primary with | some c => c.cds | none => []) ++
+    (isort (dedup w.rfiles.keys)).flatMap fun p => match w.rfiles.get p with | some c => c.cds | none => []
+
+/-- the map `GetCommodityFormats` builds (code repaired by fix-formats-path-order.diff): the
+    last directive with a format wins, in the order of `pathCommDirs`. -/
 def computeFormats (w : WS) : AList String :=
+  (pathCommDirs w).foldl (fun m cd => if cd.raw ≠ "" then m.set cd.sym cd.fmt else m) []
+
+/-- the same as pinned: directives in the order of `resolved.AllDirectives()`, that is of
+    `resolved.FileOrder`, which depends on the history of updates. -/
+def pinnedComputeFormats (w : WS) : AList String :=
   (allCommDirs w).foldl (fun m cd => if cd.raw ≠ "" then m.set cd.sym cd.fmt else m) []
 
 def computeComms (w : WS) : List String := (allCommDirs w).foldl (fun s cd => addKey s cd.sym) []
